@@ -162,6 +162,7 @@ def observe(case):
 
     # tree + annealing ----------------------------------------------------------------------
     rows_t, rows_a = [], []
+    chain, rows_c = {}, []      # the evaluator fed with its *own* earlier outputs, as the annealer does
     for a, b, k in steps:
         p = node(k)
         rows_t.append({"legs": sorted(us[i] for i in tree.get_legs(p)), "size": int(tree.get_size(p)),
@@ -170,7 +171,18 @@ def observe(case):
         legsab, cost, size = compute_contracted_info(la, lb, tree.appearances, tree.size_dict)
         rows_a.append({"legsa": [[us[i], c] for i, c in la.items()], "legsb": [[us[i], c] for i, c in lb.items()],
                        "legs": [[us[i], c] for i, c in legsab.items()], "cost": int(cost), "size": int(size)})
+        ca = chain.get(a, la) if len(node(a)) > 1 else la
+        cb = chain.get(b, lb) if len(node(b)) > 1 else lb
+        if len(p) != n:
+            clegs, ccost, csize = compute_contracted_info(ca, cb, tree.appearances, tree.size_dict)
+            chain[k] = clegs
+            rows_c.append({"legs": sorted(us[i] for i in clegs), "cost": int(ccost), "size": int(csize)})
+        else:
+            # the root: the annealer's figures for it are cost and size only (legs come from the output)
+            _, ccost, csize = compute_contracted_info(ca, cb, tree.appearances, tree.size_dict)
+            rows_c.append({"legs": None, "cost": int(ccost), "size": int(csize)})
     obs["tree"], obs["anneal"] = rows_t, rows_a
+    obs["anneal_chain"] = rows_c
     obs["tree_total"] = int(tree.total_flops())
 
     # processor in three modes ---------------------------------------------------------------
@@ -267,6 +279,10 @@ def oracle(case, obs, net, steps, leaves):
         an = obs["anneal"][idx]
         if sorted(ix for ix, _ in an["legs"]) != s["legs"] or an["size"] != s["size"] or an["cost"] != s["flops"]:
             bad.append(({"site": "compute_contracted_info", "kind": "step"}, (idx, an, s)))
+        ch = obs.get("anneal_chain", [None] * (idx + 1))[idx]
+        if ch is not None and ((ch["legs"] is not None and ch["legs"] != s["legs"]) or ch["size"] != s["size"]
+                               or ch["cost"] != s["flops"]):
+            bad.append(({"site": "compute_contracted_info", "kind": "chained"}, (idx, ch, s)))
         for mode, ref in (("proc_single", rows), ("proc_raw", rows), ("proc_batch", rowsB)):
             if mode not in obs:
                 continue
